@@ -227,8 +227,17 @@ def tensors_of(obj):
     return out
 
 
+def own_tensors(obj):
+    """Tensors an object owns.  Environments document that copy()/clone() make the ENVIRONMENT tensors independent; the PEPS they were built
+    for is shared by copy() (and by EnvBP.clone()), so it is not part of what a copy must protect."""
+    ts = tensors_of(obj)
+    if isinstance(obj, fpeps.EnvBoundaryMPS) or (hasattr(obj, 'env') and hasattr(obj, 'psi')):
+        ts = {k: v for k, v in ts.items() if not k.startswith('obj.psi')}
+    return ts
+
+
 def value_of(obj):
-    return {k: snap_t(v) for k, v in tensors_of(obj).items()}
+    return {k: snap_t(v) for k, v in own_tensors(obj).items()}
 
 
 def build_container(desc):
@@ -267,7 +276,7 @@ def build_container(desc):
 
 def mutate_container(obj, desc, deep):
     """Modify obj in place through the documented API. Returns a description, or None when nothing applicable."""
-    ts = tensors_of(obj)
+    ts = own_tensors(obj)
     if not ts:
         return None
     names = sorted(ts)
